@@ -52,6 +52,23 @@ def mergedGetFlight (files : List (List Item)) (id : Int) : Option Item :=
   | none => none
   | some k => locate files k
 
+/-! ### species-indexed values in a merged store -/
+
+/-- a species-indexed value as stored in a file: one slot per species of that file's species dimension (`none` = fill) -/
+def decodeSlots (species : List String) (slots : List (Option Int)) : List (String × Int) :=
+  (species.zip slots).filterMap (fun p => p.2.map (fun v => (p.1, v)))
+
+/-- reading trajectory `i` of a merged store whose constituent files each have their own species dimension: the row is
+    decoded with the species list of the file that holds it (the code after the `fix:` commit) -/
+def locateDecoded (files : List (List String × List (List (Option Int)))) (i : Nat) : Option (List (String × Int)) :=
+  (locate (files.map (fun f => f.2.map (fun r => (f.1, r)))) i).map (fun p => decodeSlots p.1 p.2)
+
+/-- the code as it was: every row decoded with the species list of the *first* file -/
+def locateDecodedAsIs (files : List (List String × List (List (Option Int)))) (i : Nat) : Option (List (String × Int)) :=
+  match files with
+  | [] => none
+  | f0 :: _ => (locate (files.map (·.2)) i).map (fun r => decodeSlots f0.1 r)
+
 /-! ### the merge protocol over an abstract file system -/
 
 structure StoreFile where
@@ -194,6 +211,21 @@ def handle (op : String) (j : Json) : Except String Json := do
     let g := gets.map (fun i => match locate files i with | some it => itemStr it | none => "err:index_error")
     let f := ids.map (fun id => match mergedGetFlight files id with | some it => itemStr it | none => "none")
     pure (obj [("len", putNat (mergedLen files)), ("gets", putStrs g), ("flights", putStrs f)])
+  | "decoded" =>
+    -- files: [[species names], [[slot or null, …] per trajectory]]; gets: indices
+    let files ← getList (fun f => do
+      let pr ← getArr f
+      match pr.toList with
+      | [sp, rows] => do
+        let species ← getStrs sp
+        let rs ← getList (getList (fun c => match c with | Json.null => pure none | v => do pure (some (← getInt v)))) rows
+        pure (species, rs)
+      | _ => throw "bad file") (← field j "files")
+    let gets ← getNats (← field j "gets")
+    let enc (r : Option (List (String × Int))) : Json := match r with
+      | none => Json.null
+      | some l => Json.arr (l.map (fun p => Json.arr #[Json.str p.1, putInt p.2])).toArray
+    pure (Json.arr (gets.map (fun i => enc (locateDecoded files i))).toArray)
   | "merge" =>
     let top ← getList getFileJ (← field j "top")
     let outExists ← getBool (fieldD j "out_exists" (Json.bool false))
